@@ -1,6 +1,7 @@
 /-
   C03 — Unconsumed arguments are conserved, in order.
 -/
+import GoFlags.Lemmas.InterleaveTail
 import GoFlags.Lemmas.ParseBasics
 import GoFlags.Props.C10
 
@@ -137,6 +138,89 @@ theorem remaining_are_exactly_the_words (E : Env) (help : HelpFn) (items : List 
   rw [h, C10.extra_words_remain E s _ hq]
 
 
+/-- binding a list of words is binding a first part and then, unless that failed, the rest -/
+theorem addArgs_append (E : Env) (as bs : List Bytes) : ∀ (s : PS),
+    s.addArgs E (as ++ bs) = match s.addArgs E as with
+      | (s', none) => s'.addArgs E bs
+      | r => r := by
+  induction as with
+  | nil => intro s; simp [addArgs_nil]
+  | cons a as ih =>
+    intro s
+    rw [List.cons_append, addArgs_cons E s a (as ++ bs), addArgs_cons E s a as]
+    generalize s.addArgs E [a] = r
+    obtain ⟨s', e⟩ := r
+    cases e with
+    | none => simp only; exact ih s'
+    | some e => rfl
+
+/-- **Everything after the `--` terminator is passed through verbatim — whole command lines.**
+    For a command line of any length `items ++ ["--"] ++ tail` under PassDoubleDash, where the
+    items mix option occurrences and plain words in any order and `tail` is ANY list of tokens
+    (option-looking ones, further terminators, arbitrary bytes): the positional fields, the queue
+    of pending fields and the remaining arguments end exactly as if the plain words and then the
+    whole tail had been handed to the positional binder — first to unfilled positional arguments,
+    then to the remaining arguments; nothing behind the terminator is read as an option. -/
+theorem everything_behind_the_terminator_is_passed_through (E : Env) (help : HelpFn) (items : List Item)
+    (tail : List Bytes) (fuel : Nat) (s : PS)
+    (hargs : s.args = renderItems items ++ B "--" :: tail) (hok : ItemsOK s items)
+    (hdd : s.P.opts.passDoubleDash = true)
+    (hres : (applyItemsT E help (B "--" :: tail) s items).2 = none) :
+    let fin := parseLoop E help (fuel + 1 + items.length) s
+    let alone := (s.addArgs E (wordsOf items ++ tail)).1
+    (∀ a, fin.P.argAt a = alone.P.argAt a) ∧ fin.positional = alone.positional ∧ fin.retargs = alone.retargs := by
+  simp only
+  obtain ⟨h1, h2, _, h4⟩ := parseLoop_of_items_tail E help (B "--" :: tail) items (fuel + 1) s hargs hok hres
+  obtain ⟨hag, he⟩ := items_bind_like_words_alone_tail E help (B "--" :: tail) items s s (ArgsAgree.refl s) hok hres
+  rw [h1]
+  generalize applyItemsT E help (B "--" :: tail) s items = r1 at h2 h4 hag
+  obtain ⟨s1, e1⟩ := r1
+  simp only at h2 h4 hag ⊢
+  -- one step of the loop: the terminator
+  have hstep : parseLoop E help (fuel + 1) s1 = (({ s1 with arg := B "--", args := tail } : PS).addArgs E tail).1 := by
+    rw [parseLoop.eq_def]
+    simp only [PS.eof, h2, PS.pop]
+    have : s1.P.opts.passDoubleDash = true := by rw [h4.opts]; exact hdd
+    simp [this]
+  rw [hstep, addArgs_append E (wordsOf items) tail s]
+  generalize s.addArgs E (wordsOf items) = r2 at hag he
+  obtain ⟨t1, e2⟩ := r2
+  simp only at hag he
+  subst he
+  simp only
+  have hc := addArgs_congr E tail { s1 with arg := B "--", args := tail } t1 ⟨hag.pos, hag.ret, hag.args⟩
+  exact ⟨fun a => hc.1.args.argAt a, hc.1.pos, hc.1.ret⟩
+
+/-- … and with no positional field pending: the parser ends with exactly the plain words in
+    front of the terminator and everything behind it, verbatim, in order. -/
+theorem remaining_are_the_words_and_everything_behind_the_terminator (E : Env) (help : HelpFn) (items : List Item)
+    (tail : List Bytes) (fuel : Nat) (s : PS)
+    (hargs : s.args = renderItems items ++ B "--" :: tail) (hok : ItemsOK s items)
+    (hdd : s.P.opts.passDoubleDash = true)
+    (hres : (applyItemsT E help (B "--" :: tail) s items).2 = none) (hq : s.positional = []) :
+    (parseLoop E help (fuel + 1 + items.length) s).retargs = s.retargs ++ wordsOf items ++ tail := by
+  obtain ⟨_, _, h⟩ := everything_behind_the_terminator_is_passed_through E help items tail fuel s hargs hok hdd hres
+  rw [h, C10.extra_words_remain E s _ hq, List.append_assoc]
+
+/-- **PassAfterNonOption: from the first word that is neither an option nor a command on,
+    everything is passed through.**  One step of the loop on such a word hands the word and then
+    ALL the tokens behind it to the positional binder (unfilled positional arguments first, then
+    the remaining arguments); none of them is read as an option, a terminator or a command. -/
+theorem first_plain_word_passes_everything_behind_it (E : Env) (help : HelpFn) (fuel : Nat) (s : PS) (w : Bytes)
+    (tail : List Bytes) (hargs : s.args = w :: tail) (hpa : s.P.opts.passAfterNonOption = true)
+    (hw : argumentIsOption w = false) (hdd : ¬ (s.P.opts.passDoubleDash = true ∧ w = B "--"))
+    (hc : (s.P.lookupCmd s.cmd w).isNone = true) :
+    parseLoop E help (fuel + 1) s =
+      match ({ s with arg := w, args := tail } : PS).addArgs E [w] with
+      | (s', some _) => s'
+      | (s', none) => (s'.addArgs E s'.args).1 := by
+  rw [parseLoop.eq_def]
+  simp only [PS.eof, hargs, PS.pop]
+  have h1 : (s.P.opts.passDoubleDash && decide (w = B "--")) = false := by
+    cases hd : s.P.opts.passDoubleDash <;> simp_all
+  simp [h1, hw, hpa, hc]
+  rfl
+
 /-! non-vacuity: the command line `a --v b` on a parser with one flag `--v` meets every hypothesis
     of the two whole-command-line theorems -/
 def exFlagP : Parser := { cmds := [{ groups := [{ opts := [{ long := B "v", ty := .sc .bool }] }] }] }
@@ -148,4 +232,16 @@ example : ItemsOK exS exItems :=
    by intro w h; simp [exItems, wordsOf] at h; rcases h with h | h <;> (subst h; exact Or.inl ⟨by decide, by decide⟩)⟩
 example : (applyItems default (fun _ => []) exS exItems).2 = none := by decide
 example : (applyItems default (fun _ => []) exS exItems).1.retargs = [B "a", B "b"] := by decide
+
+/-! non-vacuity of the terminator theorems: `a --v -- --v x` under PassDoubleDash -/
+def exDDP : Parser := { exFlagP with opts := { passDoubleDash := true } }
+def exDDItems : List Item := [.word (B "a"), .occ (B "v", none)]
+def exDDTail : List Bytes := [B "--v", B "x"]
+def exDDS : PS := { P := exDDP, args := renderItems exDDItems ++ B "--" :: exDDTail }
+example : ItemsOK exDDS exDDItems :=
+  ⟨by decide, by decide,
+   by intro it h; simp [exDDItems, occsOf] at h; subst h; exact ⟨⟨by decide, by decide, by decide⟩, ⟨0,0,0⟩, by decide, fun _ => by decide⟩,
+   by intro w h; simp [exDDItems, wordsOf] at h; subst h; exact Or.inl ⟨by decide, by decide⟩⟩
+example : (applyItemsT default (fun _ => []) (B "--" :: exDDTail) exDDS exDDItems).2 = none := by decide
+example : (parseLoop default (fun _ => []) 10 exDDS).retargs = [B "a", B "--v", B "x"] := by decide
 end GoFlags.C03
